@@ -1,6 +1,53 @@
-(** C05 — Concurrent activity never surfaces as an error or a panic. (interim) *)
+(** C05 — Concurrent activity never surfaces as an error or a panic.
+
+    Kernel-checked here, for lookups and touches (get, touch through plain,
+    sharded, read-only and stacked caches, no checker): whatever other
+    participants' allowed actions do — which, seen from one call, can only make
+    a path-naming lookup fail with an absence error (ENOENT / ESTALE), never make
+    a descriptor-based call fail or the kernel answer with the wrong shape — the
+    operation returns no I/O error and does not panic ([C05_lookups_and_touches]),
+    on every run and for every participant of every pool under every schedule
+    whose received responses were all in that class.
+    For the writers (set, put, ensure, get_or_update, maintenance) the same claim
+    is decided by lost-race injection at every shared-path call and by
+    exhaustive context-switch exploration of real processes (vlib/c05.py). *)
 From Coq Require Import List NArith ZArith String Bool.
-From Kismet Require Import FS.Fs FS.Prog Ops.Ops.
+From Kismet Require Import FS.Fs FS.Prog Spec.Wp Ops.Ops Conc.Pool Proofs.RaceFree Proofs.PoolLift.
+Import ListNotations.
+
+Theorem C05_lookups_and_touches : forall cfg k,
+  (s_checker cfg = None -> rf (cache_get cfg k) no_io_error) /\ rf (cache_touch cfg k) no_io_error.
+Proof. intros. split; [apply rf_cache_get|apply rf_cache_touch]. Qed.
+
+Theorem C05_read_only_api : forall stack k, rf (ro_get stack None k) no_io_error /\ rf (ro_touch stack k) no_io_error.
+Proof. intros. split; [apply rf_ro_get|apply rf_ro_touch]. Qed.
+
+Theorem C05_on_every_run : forall cfg k w o, s_checker cfg = None ->
+  let '(r, _, _, tr) := run (cache_get cfg k) w o in mon_run r_step true tr = Some true -> no_io_error r.
+Proof. intros cfg k w o H. apply (race_free_run _ (rf_cache_get cfg k H)). Qed.
+
+Theorem C05_in_any_pool : forall cfg k, s_checker cfg = None ->
+  race_free_in_any_pool (cache_get cfg k) /\ race_free_in_any_pool (cache_touch cfg k).
+Proof. intros cfg k H. split; apply rf_pool; [apply rf_cache_get, H|apply rf_cache_touch]. Qed.
+
+(** The response class, spelled out for the calls lookups make. *)
+Theorem C05_race_class : forall p a e,
+  race_ok (COpen p a) (RErr e) = absent_errno e /\ race_ok (CFstat 0) (RErr e) = false /\
+  race_ok (CClose 0) (RErr e) = false /\ race_ok (CFutimens 0 None None) (RErr e) = false.
+Proof. intros. repeat split. Qed.
+
 (** benign_error.rs: a missing file — NotFound or a stale handle — is an absence. *)
 Theorem C05_absent_errors : is_absent (OsErr ENOENT) = true /\ is_absent (OsErr ESTALE) = true /\ is_absent (OsErr EIO) = false.
 Proof. repeat split. Qed.
+
+(** Non-vacuity: a lookup whose open is answered ENOENT (the entry was just evicted by
+    a peer) returns a miss; the same with EIO is NOT in the class and does surface. *)
+Example C05_example :
+  let '(f0, d) := alloc_inode empty_fs (mkInode true [] 493 0%Z 0%Z 2 true) in
+  let f := set_names f0 ((["w"%string], d) :: names f0) in
+  let cfg := mkStack 0 (Some (FPlain ["w"%string] 300)) [] None false ["systmp"%string] in
+  let go flt :=
+    let '(r, _, _, tr) := run (cache_get cfg (mkKey "a"%string 1 2)) (mkWorld f 0 []) (mkOracle [] [] [] [] [] flt 0 1%Z Relatime) in
+    (match r with Ok None => 0 | Ok (Some _) => 1 | Err _ => 2 | Panic => 3 end, mon_run r_step true tr)%nat in
+  go None = (0%nat, Some true) /\ go (Some (0%nat, ESTALE)) = (0%nat, Some true) /\ go (Some (0%nat, EIO)) = (2%nat, Some false).
+Proof. vm_compute. repeat split. Qed.
